@@ -185,17 +185,30 @@ def settle (s : Stmt) (extra hint : Nat) (c : Nat) : Option Stmt :=
   (orPost s c).map (fun pb => { s with pkg := { s.pkg with size := s.pkg.size + extra, maxSize := s.pkg.size + extra, postByte := pb },
                                         pcrHint := hint, fixedSize := true })
 
+/-- a label multiplied or divided: the 16-bit form is taken at once -/
+def exprForces (v : Value) : Bool :=
+  match v with
+  | .expr _ _ op _ true => !(op == '+' || op == '-')
+  | _ => false
+
+/-- magnitude of the constant of `label +- constant` (widens both distance estimates) -/
+def exprExtra (v : Value) : Nat :=
+  match v with
+  | .expr l r _ _ true => ((if l.isAddress then r.int? else l.int?).getD 0)
+  | _ => 0
+
 /-- `determine_pcr_relative_sizes`: `diag` = TranslationError (no post byte choices), `internal` = IndexError etc. -/
 def determine (ss : List Stmt) (i : Nat) (s : Stmt) : Outcome Stmt :=
   match s.pkg.choices with
   | [c0, c1] =>
+    if exprForces s.pkg.additional then (match settle s 2 4 c1 with | some s' => .ok s' | none => .internal) else
     match relIndex s.pkg.additional with
     | none => .internal
     | some rel =>
       if rel > ss.length then .internal else
       let back := rel < i
       let (mn, mx) := if back then sumSizes ss rel i else sumSizes ss i rel
-      let adj := if back then s.pkg.size - 1 else 0
+      let adj := (if back then s.pkg.size - 1 else 0) + exprExtra s.pkg.additional
       let mn := mn + 2 + adj
       let mx := mx + 2 + adj
       let lim := if back then 128 else 127
@@ -278,8 +291,8 @@ def addrOffset (ss : List Stmt) (v : Value) : Outcome Value :=
           if op == '+' then some ((a : Int) + add) else if op == '-' then some ((a : Int) - add)
           else if op == '*' then some ((a : Int) * add) else (if add = 0 then none else some ((a / add : Nat) : Int))
         match z with
-        | none => .internal
-        | some z => (match numericOfInt z (some 4) .extended with | .ok nv => .ok nv | .error _ => .internal)
+        | none => .diag                                          -- ZeroDivisionError, reported as a TranslationError
+        | some z => (match numericOfInt z (some 4) .extended with | .ok nv => .ok nv | .error _ => .diag)
     | _, _ => .internal
   | _ => .internal
 
